@@ -8,6 +8,8 @@ pub struct CpioEntry {
     pub ino: u32,
     pub mode: u32,
     pub nlink: u32,
+    /// c_mtime (0 for stripped entries, which carry none)
+    pub mtime: u32,
     pub filesize: u32,
     /// for stripped entries: the index into the header's file list
     pub index: u32,
@@ -86,6 +88,7 @@ pub fn decode(archive: &[u8], sizes: &dyn Fn(u32) -> Option<u64>) -> Result<(Vec
             let ino = f(0)?;
             let mode = f(1)?;
             let nlink = f(4)?;
+            let mtime = f(5)?;
             let filesize = f(6)?;
             let namesize = f(11)? as usize;
             if namesize == 0 {
@@ -107,7 +110,7 @@ pub fn decode(archive: &[u8], sizes: &dyn Fn(u32) -> Option<u64>) -> Result<(Vec
             if name == TRAILER {
                 return Ok((out, q));
             }
-            out.push(CpioEntry { magic: m, name, ino, mode, nlink, filesize, index: u32::MAX, data, at });
+            out.push(CpioEntry { magic: m, name, ino, mode, nlink, mtime, filesize, index: u32::MAX, data, at });
             p = q;
         } else if &m == b"07070X" {
             let idx = hex8(archive.get(p + 6..p + 14).ok_or("truncated stripped header")?)?;
@@ -120,7 +123,7 @@ pub fn decode(archive: &[u8], sizes: &dyn Fn(u32) -> Option<u64>) -> Result<(Vec
             if q > archive.len() {
                 return Err(format!("truncated stripped data padding at {p}"));
             }
-            out.push(CpioEntry { magic: m, name: Vec::new(), ino: 0, mode: 0, nlink: 0, filesize: size as u32, index: idx, data, at });
+            out.push(CpioEntry { magic: m, name: Vec::new(), ino: 0, mode: 0, nlink: 0, mtime: 0, filesize: size as u32, index: idx, data, at });
             p = q;
         } else {
             return Err(format!("bad cpio magic {:?} at {p}", String::from_utf8_lossy(&m)));
